@@ -109,77 +109,10 @@ func checkC20(c *Ctx) {
 			c.Undecided("C20-R1", ax.name, "-", "not found")
 			continue
 		}
-		at := map[string]bool{}
-		for a := range atomsOf(fn) {
-			at[vpCanon(fn, a)] = true
-		}
-		hi, lo := false, false
-		for a := range at {
-			if strings.Contains(a, "v."+ax.v) && strings.Contains(a, "(v."+ax.lim+"-v."+ax.size+")") && (strings.Contains(a, " > ") || strings.Contains(a, " < ")) {
-				hi = true
-			}
-			if a == "v."+ax.v+" < 0" || a == "v."+ax.v+" >= 0" {
-				lo = true
-			}
-		}
-		// the upper clamp is applied before the lower one, so a content smaller than the view ends at 0
-		order := false
-		sts := storesTo(fn, vpOwner, vn[ax.v])
-		if len(sts) == 2 {
-			var upper, lower *ssa.Store
-			for _, s := range sts {
-				if k, isC := constInt(s.Val); isC && k == 0 {
-					lower = s
-				} else {
-					upper = s
-				}
-			}
-			if upper != nil && lower != nil && reachableAfter(upper, lower) && !reachableAfter(lower, upper) {
-				order = true
-			}
-		}
-		if !order && len(sts) >= 2 {
-			// the same decision written as exclusive cases: 0 where lim-size < 0 or view < 0, lim-size where
-			// view > lim-size and lim-size >= 0
-			last := "(v." + ax.lim + "-v." + ax.size + ")"
-			view := "v." + ax.v
-			okAll, zeroNeg, upper := true, false, false
-			for _, st := range sts {
-				var as []string
-				for _, a := range guardsAt(st.Block()) {
-					as = append(as, vpCanon(fn, a.String()))
-				}
-				hasA := func(alts ...string) bool {
-					for _, a := range as {
-						for _, w := range alts {
-							if a == w {
-								return true
-							}
-						}
-					}
-					return false
-				}
-				if k, isC := constInt(st.Val); isC && k == 0 {
-					switch {
-					case hasA(last+" < 0", "0 > "+last):
-						zeroNeg = true
-					case hasA(view+" < 0", "0 > "+view) && hasA(last+" >= 0", "0 <= "+last):
-					default:
-						okAll = false
-					}
-					continue
-				}
-				if vpCanon(fn, valName(st.Val)) == last && hasA(view+" > "+last, last+" < "+view) && hasA(last+" >= 0", "0 <= "+last) {
-					upper = true
-					continue
-				}
-				okAll = false
-			}
-			if okAll && zeroNeg && upper {
-				order = true
-			}
-		}
-		c.Check(hi && lo && order, "C20-R1", ax.name+":clamp", p.pos(fn.Pos()), fmt.Sprintf("upper clamp to lim-size: %v, lower clamp to 0: %v, lower clamp applied last: %v", hi, lo, order))
+		// decided by order types (T13): for every ordering of the offset, lim-size and 0 the function's
+		// branches are followed and the offset it leaves is max(min(offset, lim-size), 0)
+		okClamp, detail := clampOrderEval(fn, vpOwner, vn[ax.v], vn[ax.lim], vn[ax.size])
+		c.Check(okClamp, "C20-R1", ax.name+":clamp", p.pos(fn.Pos()), detail)
 	}
 	// ---- R2
 	sc := vp["SetContent"]
